@@ -10,7 +10,7 @@ from valjean.cosette.depgraph import DepGraph
 from . import runtime
 
 _MODS = None
-OUTCOMES = ('ok', 'raise', 'fail', 'none', 'notpair', 'badstatus', 'badupdate', 'triple', 'clobber', 'clobber-next', 'badnested', 'nonfinal', 'pending', 'emptyupdate')
+OUTCOMES = ('ok', 'raise', 'fail', 'none', 'notpair', 'badstatus', 'badupdate', 'triple', 'clobber', 'clobber-next', 'badnested', 'nonfinal', 'pending', 'emptyupdate', 'okstatus')
 FINAL = (TaskStatus.DONE, TaskStatus.FAILED, TaskStatus.SKIPPED)
 
 
@@ -52,6 +52,12 @@ class Probe(Task):
         self.log.append(('end', self.name))
         if out == 'ok':
             return upd, TaskStatus.DONE
+        if out == 'okstatus':
+            # a successful task whose update carries its own entry FIRST and with the status in it (what a task that
+            # re-publishes an entry restored from an earlier run returns): an apply() that publishes the update piecewise
+            # shows the task DONE before the rest of its update is there
+            own = dict(upd[self.name], status=TaskStatus.DONE)
+            return {self.name: own, 'glob': upd['glob'], self.name + '_results': {'k': self.version}}, TaskStatus.DONE
         if out == 'fail':
             return upd, TaskStatus.FAILED
         if out == 'raise':
@@ -228,7 +234,7 @@ def reference(cfg):
                 if any(kind == 'h' and final[j] in ('FAILED', 'SKIPPED') for j, kind in deps[i]):
                     final[i], count[i] = 'SKIPPED', 0
                 else:
-                    final[i], count[i] = ('DONE' if cfg['outcomes'][i] == 'ok' else 'FAILED'), 1
+                    final[i], count[i] = ('DONE' if cfg['outcomes'][i] in ('ok', 'okstatus') else 'FAILED'), 1
                 todo.remove(i)
                 progress = True
         if not progress:
@@ -294,7 +300,7 @@ def oracle(exe, cfg):
                             'the dependency had not reached its final state'))
             if dep.count and dname not in ended:
                 bad.append((f'C01|dep-still-running|{wtag}', f'{name} started before {dname} finished do()'))
-            if sta == TaskStatus.DONE and dep.outcome == 'ok':
+            if sta == TaskStatus.DONE and dep.outcome in ('ok', 'okstatus'):
                 exp = dep.update()
                 if ent.get('payload') != exp[dname]['payload'] or ent.get('extra') != exp[dname]['extra'] \
                         or glob != exp['glob'][dname]:
